@@ -4,3 +4,5 @@ import OASProofs.Props.C16
 import OASProofs.Props.C15
 import OASProofs.Props.C17
 import OASProofs.Props.C18
+import OASProofs.Props.C17Atmos
+import OASProofs.Props.C13
